@@ -35,6 +35,7 @@ use std::panic::AssertUnwindSafe;
 use bitcoin::{Block, OutPoint, Transaction, Txid};
 use lightning::chain::channelmonitor::ANTI_REORG_DELAY;
 use lightning::events::Event;
+use lightning::ln::channelmanager::BREAKDOWN_TIMEOUT;
 use lightning::ln::functional_test_utils::*;
 use lightning::ln::msgs::BaseMessageHandler;
 use lightning::ln::types::ChannelId;
@@ -172,7 +173,15 @@ fn observe(net: &Net, n: usize, chan: &ChannelId, ids: &HashMap<Txid, u32>, even
 	format!("{} | bal={:?} | rel={:?} | tip={}@{} | watch={:?} | events={:?} | first={:?} | chans={}", view_line(net, n, chan, ids), bal, rel, &bb.block_hash.to_string()[..8], bb.height, watch, evs, fs, net.nodes[n].node.list_channels().len())
 }
 
-fn build_prefix(sc: &Scn) -> World {
+/// one routed HTLC of the prefix: (payer, recipient, amount, preimage, hash)
+#[derive(Clone)]
+struct PayInfo { from: usize, to: usize, amt: u64, pre: lightning::types::payment::PaymentPreimage, hash: lightning::types::payment::PaymentHash }
+
+fn build_prefix(sc: &Scn) -> World { build_prefix_pays(&sc.ab, &sc.ba, sc.closer).0 }
+
+/// the deterministic prefix: channel, HTLCs a->b / b->a (flag: the recipient claims before the close;
+/// the fulfill message is never delivered), force-close by `closer`
+fn build_prefix_pays(ab: &[(u64, bool)], ba: &[(u64, bool)], closer: usize) -> (World, Vec<PayInfo>) {
 	let cfg = test_legacy_channel_config();
 	let mut net = Net::new(2, vec![Some(cfg.clone()), Some(cfg)]);
 	set_style(&net, ConnectStyle::FullBlockViaListen);
@@ -180,23 +189,26 @@ fn build_prefix(sc: &Scn) -> World {
 	let chan = net.chans[0].2;
 	let funding = net.nodes[0].node.list_channels()[0].funding_txo.unwrap().txid;
 	let mut claims: Vec<(usize, lightning::types::payment::PaymentPreimage)> = vec![];
-	for (amt, claimed) in sc.ab.iter() {
-		let (pre, _, _, _) = route_payment(&net.nodes[0], &[&net.nodes[1]], *amt);
+	let mut pays = vec![];
+	for (amt, claimed) in ab.iter() {
+		let (pre, hash, _, _) = route_payment(&net.nodes[0], &[&net.nodes[1]], *amt);
 		if *claimed { claims.push((1, pre)); }
+		pays.push(PayInfo { from: 0, to: 1, amt: *amt, pre, hash });
 	}
-	for (amt, claimed) in sc.ba.iter() {
-		let (pre, _, _, _) = route_payment(&net.nodes[1], &[&net.nodes[0]], *amt);
+	for (amt, claimed) in ba.iter() {
+		let (pre, hash, _, _) = route_payment(&net.nodes[1], &[&net.nodes[0]], *amt);
 		if *claimed { claims.push((0, pre)); }
+		pays.push(PayInfo { from: 1, to: 0, amt: *amt, pre, hash });
 	}
 	for (n, pre) in claims { net.nodes[n].node.claim_funds(pre); }
 	let mut sink = vec![];
 	for n in 0..2 { drain(&net, n, &mut sink); }
-	let peer = net.ids[1 - sc.closer];
-	net.nodes[sc.closer].node.force_close_broadcasting_latest_txn(&chan, &peer, "c11".to_string()).unwrap();
+	let peer = net.ids[1 - closer];
+	net.nodes[closer].node.force_close_broadcasting_latest_txn(&chan, &peer, "c11".to_string()).unwrap();
 	for n in 0..2 { drain(&net, n, &mut sink); }
 	let h0 = net.nodes[0].best_block_info().1;
 	assert_eq!(h0, net.nodes[1].best_block_info().1);
-	World { net, chan, h0, funding }
+	(World { net, chan, h0, funding }, pays)
 }
 
 fn relevant_ids(block: &Block, ids: &HashMap<Txid, u32>) -> Vec<u32> {
@@ -315,6 +327,38 @@ fn tx_blocks(net: &Net, n: usize, ids: &HashMap<Txid, u32>) -> Vec<(u32, Vec<u32
 	net.nodes[n].blocks.lock().unwrap().iter().filter(|(b, _)| !b.txdata.is_empty()).map(|(b, h)| (*h, relevant_ids(b, ids))).collect()
 }
 
+/// disconnect `depth` blocks from node `n` with the library's helper (in the node's style) and return the
+/// abstract ops the monitor saw
+fn disconnect_with_ops(net: &Net, n: usize, style: ConnectStyle, depth: u32, ids: &HashMap<Txid, u32>) -> Vec<String> {
+	let popped: Vec<(Block, u32)> = { let bl = net.nodes[n].blocks.lock().unwrap(); bl[bl.len() - depth as usize..].iter().rev().cloned().collect() };
+	disconnect_blocks(&net.nodes[n], depth);
+	let mut ops: Vec<String> = vec![];
+	for (i, (b, h)) in popped.iter().enumerate() {
+		let last = i + 1 == popped.len();
+		match style {
+			ConnectStyle::FullBlockViaListen | ConnectStyle::ReplayedFullBlockViaListen => ops.push(format!("disc {}", h - 1)),
+			ConnectStyle::FullBlockDisconnectionsSkippingViaListen => if last { ops.push(format!("disc {}", h - 1)); },
+			ConnectStyle::BestBlockFirstSkippingBlocks | ConnectStyle::TransactionsFirstSkippingBlocks
+			| ConnectStyle::HighlyRedundantTransactionsFirstSkippingBlocks | ConnectStyle::TransactionsDuplicativelyFirstSkippingBlocks => if last { ops.push(format!("best {}", h - 1)); },
+			ConnectStyle::BestBlockFirstReorgsOnlyTip | ConnectStyle::TransactionsFirstReorgsOnlyTip => for id in relevant_ids(b, ids) { ops.push(format!("unconf {}", id)); },
+			ConnectStyle::BestBlockFirst | ConnectStyle::TransactionsFirst => ops.push(format!("best {}", h - 1)),
+		}
+	}
+	if style == ConnectStyle::TransactionsFirstReorgsOnlyTip {
+		// A Confirm client must announce the new tip (`best_block_updated` "must be called whenever a
+		// new chain tip becomes available"); the helper's ReorgsOnlyTip disconnection does not, and a
+		// transactions-first client would then confirm transactions of a *lower* chain against the
+		// stale best height — not a delivery the contract allows.  (BestBlockFirstReorgsOnlyTip is
+		// left as is: its next call is the best_block_updated of the new block.)
+		use lightning::chain::Confirm;
+		let (hdr, hh) = { let bl = net.nodes[n].blocks.lock().unwrap(); let l = bl.last().unwrap(); (l.0.header, l.1) };
+		net.nodes[n].chain_monitor.chain_monitor.best_block_updated(&hdr, hh);
+		net.nodes[n].node.best_block_updated(&hdr, hh);
+		ops.push(format!("best {}", hh));
+	}
+	ops
+}
+
 struct Replay<'a> {
 	w: World,
 	fin: &'a Final,
@@ -412,32 +456,7 @@ impl<'a> Replay<'a> {
 		}
 		for (k, b) in fork_blocks.iter().enumerate() { self.connect_one(rec, b, f.at + 1 + k as u32); }
 		for n in 0..2 {
-			let popped: Vec<(Block, u32)> = { let bl = self.w.net.nodes[n].blocks.lock().unwrap(); bl[bl.len() - f.depth as usize..].iter().rev().cloned().collect() };
-			disconnect_blocks(&self.w.net.nodes[n], f.depth);
-			let mut ops: Vec<String> = vec![];
-			for (i, (b, h)) in popped.iter().enumerate() {
-				let last = i + 1 == popped.len();
-				match self.style {
-					ConnectStyle::FullBlockViaListen | ConnectStyle::ReplayedFullBlockViaListen => ops.push(format!("disc {}", h - 1)),
-					ConnectStyle::FullBlockDisconnectionsSkippingViaListen => if last { ops.push(format!("disc {}", h - 1)); },
-					ConnectStyle::BestBlockFirstSkippingBlocks | ConnectStyle::TransactionsFirstSkippingBlocks
-					| ConnectStyle::HighlyRedundantTransactionsFirstSkippingBlocks | ConnectStyle::TransactionsDuplicativelyFirstSkippingBlocks => if last { ops.push(format!("best {}", h - 1)); },
-					ConnectStyle::BestBlockFirstReorgsOnlyTip | ConnectStyle::TransactionsFirstReorgsOnlyTip => for id in relevant_ids(b, &fin.ids) { ops.push(format!("unconf {}", id)); },
-					ConnectStyle::BestBlockFirst | ConnectStyle::TransactionsFirst => ops.push(format!("best {}", h - 1)),
-				}
-			}
-			if self.style == ConnectStyle::TransactionsFirstReorgsOnlyTip {
-				// A Confirm client must announce the new tip (`best_block_updated` "must be called whenever a
-				// new chain tip becomes available"); the helper's ReorgsOnlyTip disconnection does not, and a
-				// transactions-first client would then confirm transactions of a *lower* chain against the
-				// stale best height — not a delivery the contract allows.  (BestBlockFirstReorgsOnlyTip is
-				// left as is: its next call is the best_block_updated of the new block.)
-				use lightning::chain::Confirm;
-				let (hdr, hh) = { let bl = self.w.net.nodes[n].blocks.lock().unwrap(); let l = bl.last().unwrap(); (l.0.header, l.1) };
-				self.w.net.nodes[n].chain_monitor.chain_monitor.best_block_updated(&hdr, hh);
-				self.w.net.nodes[n].node.best_block_updated(&hdr, hh);
-				ops.push(format!("best {}", hh));
-			}
+			let ops = disconnect_with_ops(&self.w.net, n, self.style, f.depth, &fin.ids);
 			self.emit(rec, n, ops, "disconnect");
 			if self.live { self.poll(n, f.at); }
 		}
@@ -498,6 +517,608 @@ fn replay(sc: &Scn, fin: &Final, style: ConnectStyle, fork: Option<Fork>, live: 
 	out
 }
 
+
+// =====================================================================================================
+// Late-preimage / claim-bookkeeping scenarios ("lp"): a preimage (ChannelMonitorUpdateStep::PaymentPreimage)
+// reaches the monitor at ANY point relative to the confirmation of the commitment transaction — before
+// the close, in the same block, k blocks later for k in 0..=ANTI_REORG_DELAY+1, after the disconnection,
+// after the re-connection — and a reorg with ANY fork point (below the commitment, exactly at it, between
+// commitment and tip) follows, delivered under every ConnectStyle; then different blocks are connected,
+// rebroadcast_pending_claims is called, and the chain is mined until drained.
+//
+// Tracked outputs: the HTLC outputs of the confirmed commitment transaction that the *recipient* node
+// claims with the preimage (CounterpartyOfferedHTLCOutput when the counterparty's commitment confirmed,
+// HolderHTLCOutput when its own did).  After every delivery call and every claim_funds the real
+// OnchainTxHandler bookkeeping for them (claimable_outpoints WITH creation heights, the handler's own
+// awaiting entries, known preimages — hook monitor_claims_view) is compared with the Lean model
+// (`<n> cv`), and these implementation-only oracles are evaluated:
+//   O1  commitment confirmed, preimage known, HTLC output unspent, but no claim pending /
+//       rebroadcast_pending_claims re-broadcasts nothing for it;
+//   O2  after draining, the node did not get the HTLC (no own claim mined / no SpendableOutputs);
+//   O3  a claimable_outpoints entry without pending_claim_requests entry;
+//   O4  the styles disagree on pending claims / end observations for the same abstract history.
+// =====================================================================================================
+
+/// known-finding tags for the two pristine-code deviations of this class (see report / known_findings.txt)
+const KF3: &str = "KF-C11-3 preimage claim on the HOLDER commitment registered some blocks after that commitment confirmed is dated at the tip (provide_payment_preimage passes best_block.height to get_broadcasted_holder_claims): a reorg above the commitment drops the claim and nothing re-creates it";
+const KF4: &str = "KF-C11-4 preimage claim registered after the counterparty commitment reached ANTI_REORG_DELAY (funding_spend_confirmed => confirmation height None) is dated at the tip: a one-block reorg drops the claim although the commitment is irrevocably confirmed";
+
+#[derive(Clone, Copy, Debug, PartialEq)]
+enum When { Before, At(u32), AfterDisc, AfterReorg, Never }
+
+#[derive(Clone, Debug)]
+struct Lp {
+	seed: u64,
+	/// HTLCs 0->1 / 1->0: (amount msat, when the recipient provides the preimage)
+	ab: Vec<(u64, When)>,
+	ba: Vec<(u64, When)>,
+	closer: usize,
+	/// empty blocks between the close and the commitment's block (height H = h0 + 1 + gap)
+	gap: u32,
+	/// blocks connected on top of H before the reorg (old tip = H + m, m >= 1)
+	m: u32,
+	/// fork point = H + df, -2 <= df <= m - 1 (df >= 0: the commitment stays confirmed); depth m - df <= ANTI_REORG_DELAY
+	df: i32,
+	/// if the commitment is removed it is re-mined at fork point + 1 + recommit
+	recommit: u32,
+	/// the new chain is connected up to old tip + 1 + extra before rebroadcast_pending_claims
+	extra: u32,
+	/// the recipient's preimage-claim transactions are mined right away in the pre-fork chain
+	mine_early: bool,
+	/// blocks mined after the rebroadcast
+	drain: u32,
+}
+
+#[derive(Clone, Debug)]
+enum Step { Blk(Block), Disc(u32), Claim(usize), Rebroadcast, End }
+
+#[derive(Clone, Debug)]
+struct Tracked { oid: u32, op: OutPoint, pay: usize, node: usize, holder: bool, /// the PAYER's view: its claim is the time-locked timeout
+	locked: bool }
+
+struct LpFinal {
+	h0: u32,
+	h0_hash: bitcoin::BlockHash,
+	steps: Vec<Step>,
+	ids: HashMap<Txid, u32>,
+	cat: [BTreeMap<u32, Vec<(u8, Option<u32>)>>; 2],
+	tracked: Vec<Tracked>,
+	commitment: Txid,
+	/// claims on tracked outputs already registered when the prefix ends (holder HTLC claims made at broadcast time)
+	init_claims: [Vec<(u32, u32)>; 2],
+	init_locked: [Vec<u32>; 2],
+	n_blocks: usize,
+}
+
+#[derive(Default, Clone)]
+struct LpOut {
+	/// per node: tracked outputs pending at the rebroadcast checkpoint ("oid" list) — compared across styles
+	pending: [String; 2],
+	end: [String; 2],
+	/// oracle texts (O1..O3), already tagged
+	fails: Vec<String>,
+}
+
+/// the two known pristine-code deviations of this class: which (commitment side, moment) combinations they cover
+fn kf_tag(holder: bool, at: When) -> Option<&'static str> {
+	match (holder, at) {
+		(true, When::Before) => None,
+		(true, _) => Some(KF3),
+		(false, When::At(k)) if k >= ANTI_REORG_DELAY - 1 => Some(KF4),
+		_ => None,
+	}
+}
+
+fn whens(lp: &Lp) -> Vec<When> { lp.ab.iter().chain(lp.ba.iter()).map(|x| x.1).collect() }
+
+struct LpExec<'a> {
+	w: World,
+	pays: Vec<PayInfo>,
+	lp: &'a Lp,
+	style: ConnectStyle,
+	/// emit model ops / correspondence cases
+	live: bool,
+	reference: bool,
+	ids: HashMap<Txid, u32>,
+	cat: [BTreeMap<u32, Vec<(u8, Option<u32>)>>; 2],
+	tracked: Vec<Tracked>,
+	commitment: Txid,
+	mempool: Vec<Transaction>,
+	seen: HashSet<Txid>,
+	by_node: HashMap<Txid, usize>,
+	events: [Vec<String>; 2],
+	first_seen: [BTreeMap<String, u32>; 2],
+	provided: Vec<bool>,
+	/// (node, output id) whose spend once had ANTI_REORG_DELAY confirmations; oid 0 = the commitment itself: conclusions about
+	/// them are irrevocable by design, a later (deep) reorg need not retract them
+	buried: HashSet<(usize, u32)>,
+	out: LpOut,
+}
+
+impl<'a> LpExec<'a> {
+	fn new(lp: &'a Lp, style: ConnectStyle, live: bool, fin: Option<&LpFinal>) -> Result<LpExec<'a>, String> {
+		let ab: Vec<(u64, bool)> = lp.ab.iter().map(|x| (x.0, x.1 == When::Before)).collect();
+		let ba: Vec<(u64, bool)> = lp.ba.iter().map(|x| (x.0, x.1 == When::Before)).collect();
+		let (w, pays) = build_prefix_pays(&ab, &ba, lp.closer);
+		let mut e = LpExec { w, pays, lp, style, live, reference: fin.is_none(), ids: HashMap::new(), cat: [BTreeMap::new(), BTreeMap::new()], tracked: vec![], commitment: Txid::from_raw_hash(bitcoin::hashes::Hash::all_zeros()),
+			mempool: vec![], seen: HashSet::new(), by_node: HashMap::new(), events: [vec![], vec![]], first_seen: [BTreeMap::new(), BTreeMap::new()], provided: vec![], buried: HashSet::new(), out: LpOut::default() };
+		e.provided = whens(lp).iter().map(|w| *w == When::Before).collect();
+		e.take();
+		// the closer's commitment transaction and the tracked outputs on it
+		let c = e.mempool.iter().find(|t| t.input.len() == 1 && t.input[0].previous_output.txid == e.w.funding).cloned().ok_or("no commitment broadcast".to_string())?;
+		e.commitment = c.compute_txid();
+		for (i, p) in e.pays.iter().enumerate() {
+			let v: Vec<usize> = c.output.iter().enumerate().filter(|(_, o)| o.value.to_sat() == p.amt / 1000).map(|x| x.0).collect();
+			if v.len() != 1 { return Err(format!("HTLC output of pay {} not identified ({} candidates)", i, v.len())); }
+			e.tracked.push(Tracked { oid: i as u32 + 1, op: OutPoint { txid: e.commitment, vout: v[0] as u32 }, pay: i, node: p.to, holder: p.to == lp.closer, locked: false });
+			e.tracked.push(Tracked { oid: i as u32 + 51, op: OutPoint { txid: e.commitment, vout: v[0] as u32 }, pay: usize::MAX, node: p.from, holder: p.from == lp.closer, locked: true });
+		}
+		// the funding outpoint itself is a registered claim of the closer (HolderFundingOutput, made at broadcast
+		// time): the commitment transaction is *its* claim and gets a handler-side awaiting entry
+		e.tracked.push(Tracked { oid: 100, op: c.input[0].previous_output, pay: usize::MAX, node: lp.closer, holder: false, locked: false });
+		if let Some(f) = fin {
+			if e.w.h0 != f.h0 || e.w.net.nodes[0].best_block_hash() != f.h0_hash || e.commitment != f.commitment { return Err("prefix not reproducible".to_string()); }
+			e.ids = f.ids.clone();
+			e.cat = f.cat.clone();
+		}
+		set_style(&e.w.net, style);
+		Ok(e)
+	}
+
+	fn take(&mut self) {
+		for n in 0..2 {
+			let txs: Vec<Transaction> = self.w.net.nodes[n].tx_broadcaster.txn_broadcasted.lock().unwrap().drain(..).collect();
+			for tx in txs { let id = tx.compute_txid(); self.by_node.entry(id).or_insert(n); if self.seen.insert(id) { self.mempool.push(tx); } }
+		}
+	}
+
+	fn height(&self, n: usize) -> u32 { self.w.net.nodes[n].blocks.lock().unwrap().last().unwrap().1 }
+
+	/// (height, block) of the node's current chain containing `txid`
+	fn conf_height(&self, n: usize, txid: &Txid) -> Option<u32> {
+		self.w.net.nodes[n].blocks.lock().unwrap().iter().find(|(b, _)| b.txdata.iter().any(|t| t.compute_txid() == *txid)).map(|x| x.1)
+	}
+	/// the transaction of the node's current chain that spends `op`
+	fn spender(&self, n: usize, op: &OutPoint) -> Option<(Txid, u32)> {
+		for (b, h) in self.w.net.nodes[n].blocks.lock().unwrap().iter() { for t in b.txdata.iter() { if t.input.iter().any(|i| i.previous_output == *op) { return Some((t.compute_txid(), *h)); } } }
+		None
+	}
+
+	fn poll(&mut self, n: usize) {
+		let h = self.height(n);
+		let before = self.events[n].len();
+		drain(&self.w.net, n, &mut self.events[n]);
+		for e in self.events[n][before..].to_vec() { self.first_seen[n].entry(e).or_insert(h); }
+	}
+
+	/// the real claim bookkeeping for node n's tracked outputs in the model's text
+	fn cv_line(&mut self, n: usize) -> String {
+		let mon = self.w.net.nodes[n].chain_monitor.chain_monitor.get_monitor(self.w.chan).unwrap();
+		let (claimable, locktimed, awaiting, hashes) = vh::monitor_claims_view(&mon);
+		let mut lk: Vec<Vec<u64>> = vec![];
+		for (op, _) in locktimed.iter() { if let Some(t) = self.tracked.iter().find(|t| t.node == n && t.op == *op) { lk.push(vec![t.oid as u64]); } }
+		let mut cl: Vec<Vec<u64>> = vec![];
+		for (op, creation, pending) in claimable.iter() {
+			if let Some(t) = self.tracked.iter().find(|t| t.node == n && t.op == *op) {
+				cl.push(vec![t.oid as u64, *creation as u64]);
+				if !*pending { self.out.fails.push(format!("O3 node {} output {} is in claimable_outpoints (creation height {}) but its claim id has no pending_claim_requests entry", n, t.oid, creation)); }
+			}
+		}
+		let mut haw: Vec<Vec<u64>> = vec![];
+		for (txid, h, _is_claim) in awaiting.iter() {
+			let spends_tracked = self.seen_tx(txid).map(|tx| tx.input.iter().any(|i| self.tracked.iter().any(|t| t.node == n && t.op == i.previous_output))).unwrap_or(false);
+			if spends_tracked { let k = vec![*self.ids.get(txid).unwrap_or(&999_999) as u64, *h as u64]; if !haw.contains(&k) { haw.push(k); } }
+		}
+		let mut pre: Vec<Vec<u64>> = vec![];
+		for (i, p) in self.pays.iter().enumerate() { if p.to == n && hashes.contains(&p.hash) { pre.push(vec![i as u64 + 1]); } }
+		format!("claims={} haw={} pre={} lk={}", show_keys(cl), show_keys(haw), show_keys(pre), show_keys(lk))
+	}
+
+	fn seen_tx(&self, txid: &Txid) -> Option<Transaction> {
+		if let Some(t) = self.mempool.iter().find(|t| t.compute_txid() == *txid) { return Some(t.clone()); }
+		for n in 0..2 { for (b, _) in self.w.net.nodes[n].blocks.lock().unwrap().iter() { for t in b.txdata.iter() { if t.compute_txid() == *txid { return Some(t.clone()); } } } }
+		None
+	}
+
+	fn emit(&mut self, rec: &mut Rec, n: usize, ops: Vec<String>, kind: &str) {
+		if ops.is_empty() || !self.live { return; }
+		let last = ops.len() - 1;
+		let class = format!("lp/{:?}/{}", self.style, kind);
+		for (i, op) in ops.iter().enumerate() {
+			let line = format!("{} {}", n, op);
+			if i < last { rec.directive(&line); } else {
+				let ans = view_line(&self.w.net, n, &self.w.chan, &self.ids);
+				rec.case(&line, &ans, &class, true);
+			}
+		}
+		let cv = self.cv_line(n);
+		rec.case(&format!("{} cv", n), &cv, &format!("{}/cv", class), true);
+	}
+
+	/// model directives describing the scenario to the driver (replays only)
+	fn preamble(&mut self, rec: &mut Rec, fin: &LpFinal) {
+		if !self.live { return; }
+		for n in 0..2 {
+			rec.directive(&format!("{} reset {}", n, fin.h0));
+			for (id, evs) in fin.cat[n].iter() {
+				let e: Vec<String> = evs.iter().map(|(k, c)| format!("{}:{}", k, c.map(|x| x.to_string()).unwrap_or("-".to_string()))).collect();
+				rec.directive(&format!("{} tx {} {}", n, id, e.join(" ")));
+			}
+			let cid = fin.ids[&fin.commitment];
+			for t in fin.tracked.iter().filter(|t| t.node == n && t.pay != usize::MAX) {
+				rec.directive(&format!("{} out {} {} {} {}", n, t.oid, cid, t.pay + 1, if t.holder { 1 } else { 0 }));
+			}
+			for t in fin.tracked.iter().filter(|t| t.node == n && t.locked && !t.holder) { rec.directive(&format!("{} lout {} {}", n, t.oid, cid)); }
+			for o in fin.init_locked[n].iter() { rec.directive(&format!("{} initlocked {}", n, o)); }
+			// which transactions spend which tracked outputs
+			let mut sp: BTreeMap<u32, Vec<u32>> = BTreeMap::new();
+			for st in fin.steps.iter() { if let Step::Blk(b) = st { for tx in b.txdata.iter() {
+				let outs: Vec<u32> = fin.tracked.iter().filter(|t| t.node == n && tx.input.iter().any(|i| i.previous_output == t.op)).map(|t| t.oid).collect();
+				if !outs.is_empty() { sp.insert(fin.ids[&tx.compute_txid()], outs); }
+			} } }
+			for (t, outs) in sp.iter() { rec.directive(&format!("{} spend {} {}", n, t, outs.iter().map(|x| x.to_string()).collect::<Vec<_>>().join(" "))); }
+			for (i, w) in whens(self.lp).iter().enumerate() { if *w == When::Before && self.pays[i].to == n { rec.directive(&format!("{} pre {}", n, i + 1)); } }
+			for (o, c) in fin.init_claims[n].iter() { rec.directive(&format!("{} initclaim {} {}", n, o, c)); }
+			let cv = self.cv_line(n);
+			rec.case(&format!("{} cv", n), &cv, &format!("lp/{:?}/init/cv", self.style), true);
+		}
+	}
+
+	/// learn the monitor-event catalog (reference run): entries queued at the current height
+	fn learn(&mut self, height: u32) -> Result<(), String> {
+		for n in 0..2 {
+			let mon = self.w.net.nodes[n].chain_monitor.chain_monitor.get_monitor(self.w.chan).unwrap();
+			let (_, awaiting, _, _, _) = vh::monitor_onchain_view(&mon);
+			let mut now: BTreeMap<u32, Vec<(u8, Option<u32>)>> = BTreeMap::new();
+			for (t, h, k, thr) in awaiting.iter() {
+				if *h != height { continue; }
+				let id = match self.ids.get(t) { Some(i) => *i, None => return Err(format!("awaiting entry for unmined tx {} at {}", t, height)) };
+				let csv = if *thr == *h + ANTI_REORG_DELAY - 1 { None } else { Some(*thr + 1 - *h) };
+				now.entry(id).or_default().push((kind_code(k), csv));
+			}
+			for (id, evs) in now { match self.cat[n].get(&id) {
+				None => { self.cat[n].insert(id, evs); },
+				Some(old) => if *old != evs { return Err(format!("transaction {} queues different events on re-confirmation: {:?} vs {:?}", id, old, evs)); },
+			} }
+		}
+		Ok(())
+	}
+
+	/// connect a run of consecutive blocks (starting at height `h`) in the node's style
+	fn connect_run(&mut self, rec: &mut Rec, blocks: &[Block]) -> Result<(), String> {
+		let mut i = 0;
+		while i < blocks.len() {
+			let mut k = 1;
+			if blocks[i].txdata.is_empty() && self.style.skips_blocks() { while i + k < blocks.len() && blocks[i + k].txdata.is_empty() { k += 1; } }
+			for n in 0..2 {
+				let h = self.height(n) + 1;
+				// intermediate empty blocks are not announced by a skipping client
+				for j in 0..k - 1 { self.w.net.nodes[n].blocks.lock().unwrap().push((blocks[i + j].clone(), h + j as u32)); }
+				let b = &blocks[i + k - 1];
+				let hb = h + k as u32 - 1;
+				connect_block(&self.w.net.nodes[n], b);
+				let ids = relevant_ids(b, &self.ids);
+				let mut prior = tx_blocks(&self.w.net, n, &self.ids);
+				if b.txdata.is_empty() { prior.retain(|(hh, _)| *hh != hb); }
+				let ops = block_ops(self.style, hb, &ids, &prior);
+				self.emit(rec, n, ops, if ids.is_empty() { if k > 1 { "connect-empties" } else { "connect-empty" } } else { "connect-tx" });
+				self.poll(n);
+				let tip = self.height(n);
+				if let Some(hc) = self.conf_height(n, &self.commitment) { if tip + 1 - hc >= ANTI_REORG_DELAY { self.buried.insert((n, 0)); } }
+				for t in self.tracked.clone().iter().filter(|t| t.node == n) { if let Some((_, hs)) = self.spender(n, &t.op) { if tip + 1 - hs >= ANTI_REORG_DELAY { self.buried.insert((n, t.oid)); } } }
+			}
+			self.take();
+			if self.reference { for j in 0..k { let h = self.height(0) + 1 - k as u32 + j as u32; if j + 1 == k { self.learn(h)?; } } }
+			i += k;
+		}
+		Ok(())
+	}
+
+	fn disconnect(&mut self, rec: &mut Rec, depth: u32) {
+		for n in 0..2 {
+			let mut ops = disconnect_with_ops(&self.w.net, n, self.style, depth, &self.ids);
+			if self.style == ConnectStyle::BestBlockFirstReorgsOnlyTip && whens(self.lp).contains(&When::AfterDisc) {
+				// a monitor update is about to be applied between the disconnection and the next block: the client
+				// announces the tip it is now on first (the helper's unconfirm-only disconnection leaves the monitor's
+				// best block at the OLD tip, and a claim built now would carry that height as nLockTime, which the
+				// test broadcaster refuses)
+				use lightning::chain::Confirm;
+				let (hdr, hh) = { let bl = self.w.net.nodes[n].blocks.lock().unwrap(); let l = bl.last().unwrap(); (l.0.header, l.1) };
+				self.w.net.nodes[n].chain_monitor.chain_monitor.best_block_updated(&hdr, hh);
+				self.w.net.nodes[n].node.best_block_updated(&hdr, hh);
+				ops.push(format!("best {}", hh));
+			}
+			self.emit(rec, n, ops, "disconnect");
+			self.poll(n);
+		}
+		self.take();
+	}
+
+	fn claim(&mut self, rec: &mut Rec, i: usize) {
+		let n = self.pays[i].to;
+		self.w.net.nodes[n].node.claim_funds(self.pays[i].pre);
+		self.provided[i] = true;
+		self.emit(rec, n, vec![format!("pre {}", i + 1)], "preimage");
+		self.poll(n);
+		self.take();
+	}
+
+	fn tag(&self, t: &Tracked, at: When) -> String { kf_tag(t.holder, at).map(|k| format!("{} — ", k)).unwrap_or_default() }
+
+	/// O1: claims that must be pending now
+	fn rebroadcast(&mut self) {
+		self.take();
+		for n in 0..2 {
+			self.w.net.nodes[n].chain_monitor.chain_monitor.rebroadcast_pending_claims();
+			let txs: Vec<Transaction> = self.w.net.nodes[n].tx_broadcaster.txn_broadcasted.lock().unwrap().clone();
+			let mon = self.w.net.nodes[n].chain_monitor.chain_monitor.get_monitor(self.w.chan).unwrap();
+			let (claimable, _, _, _) = vh::monitor_claims_view(&mon);
+			let mut pend: Vec<String> = vec![];
+			for t in self.tracked.clone().iter().filter(|t| t.node == n && t.pay != usize::MAX) {
+				let rebroadcast = txs.iter().any(|tx| tx.input.iter().any(|i| i.previous_output == t.op));
+				let registered = claimable.iter().any(|(op, _, p)| *op == t.op && *p);
+				let commit_h = self.conf_height(n, &self.commitment);
+				let spent = self.spender(n, &t.op);
+				let at = whens(self.lp)[t.pay];
+				// irrevocable by design: the spend / the commitment had ANTI_REORG_DELAY confirmations before a reorg of that depth
+				let exempt = self.buried.contains(&(n, t.oid)) || (self.buried.contains(&(n, 0)) && self.lp.df < 0);
+				if rebroadcast && !exempt { pend.push(format!("{}", t.oid)); }
+				if self.provided[t.pay] && commit_h.is_some() && spent.is_none() && !exempt && (!rebroadcast || !registered) {
+					self.out.fails.push(format!("{}O1 claim lost: node {} holds the preimage of HTLC {} (provided {:?}), the commitment is confirmed at height {} of its best chain (tip {}), the HTLC output {}:{} is unspent, but {} [{}]",
+						self.tag(t, at), n, t.pay + 1, at, commit_h.unwrap(), self.height(n), &t.op.txid.to_string()[..8], t.op.vout,
+						if !registered { "no claim is pending for it (claimable_outpoints / pending_claim_requests) and rebroadcast_pending_claims re-broadcasts nothing" } else { "rebroadcast_pending_claims re-broadcasts nothing for it" },
+						if t.holder { "holder commitment" } else { "counterparty commitment" }));
+				}
+			}
+			self.out.pending[n] = pend.join(",");
+		}
+		self.take();
+	}
+
+	/// O2 + end observation
+	fn end(&mut self) {
+		for n in 0..2 {
+			self.poll(n);
+			for t in self.tracked.clone().iter().filter(|t| t.node == n && t.pay != usize::MAX) {
+				if !self.provided[t.pay] || self.conf_height(n, &self.commitment).is_none() { continue; }
+				if self.spender(n, &t.op).is_none() && (self.buried.contains(&(n, t.oid)) || (self.buried.contains(&(n, 0)) && self.lp.df < 0)) { continue; }
+				let at = whens(self.lp)[t.pay];
+				match self.spender(n, &t.op) {
+					None => self.out.fails.push(format!("{}O2 after draining ({} blocks past the rebroadcast) node {} never claimed HTLC {} although it held the preimage (provided {:?}): output {}:{} still unspent [{}]", self.tag(t, at), self.lp.drain, n, t.pay + 1, at, &t.op.txid.to_string()[..8], t.op.vout, if t.holder { "holder commitment" } else { "counterparty commitment" })),
+					Some((s, h)) => {
+						if self.by_node.get(&s) != Some(&n) { self.out.fails.push(format!("{}O2 HTLC {} was spent by the counterparty's transaction {} although node {} held the preimage (provided {:?})", self.tag(t, at), t.pay + 1, &s.to_string()[..8], n, at)); continue; }
+						let confs = self.height(n) + 1 - h;
+						let need = if t.holder { (BREAKDOWN_TIMEOUT as u32).max(ANTI_REORG_DELAY) } else { ANTI_REORG_DELAY };
+						let got = self.events[n].iter().any(|e| e.starts_with("SpendableOutputs") && e.contains(&s.to_string()[..8]));
+						if confs >= need && !got { self.out.fails.push(format!("{}O2 node {} did not receive SpendableOutputs for HTLC {} it had the preimage for: its claim {} has {} confirmations", self.tag(t, at), n, t.pay + 1, &s.to_string()[..8], confs)); }
+					},
+				}
+			}
+			self.out.end[n] = observe(&self.w.net, n, &self.w.chan, &self.ids, &self.events[n], &BTreeMap::new());
+		}
+	}
+
+	/// eligible mempool transactions for a block at `height` on top of node 0's chain; `only_claims`: only the
+	/// recipients' spends of tracked outputs
+	fn pick(&mut self, height: u32, only_claims: bool, want_commitment: bool) -> Vec<Transaction> {
+		let chain: Vec<Transaction> = self.w.net.nodes[0].blocks.lock().unwrap().iter().flat_map(|(b, _)| b.txdata.clone()).collect();
+		let mut confirmed: HashSet<Txid> = chain.iter().map(|t| t.compute_txid()).collect();
+		confirmed.insert(self.w.funding);
+		let mut spent: HashSet<OutPoint> = chain.iter().flat_map(|t| t.input.iter().map(|i| i.previous_output)).collect();
+		let mut txs = vec![];
+		let mut progress = true;
+		while progress {
+			progress = false;
+			for tx in self.mempool.clone().iter() {
+				let id = tx.compute_txid();
+				if confirmed.contains(&id) { continue; }
+				let is_commit = id == self.commitment;
+				if is_commit && !want_commitment { continue; }
+				if !is_commit && only_claims && !tx.input.iter().any(|i| self.tracked.iter().any(|t| t.op == i.previous_output && self.by_node.get(&id) == Some(&t.node))) { continue; }
+				let lock_ok = !tx.lock_time.is_block_height() || tx.lock_time.to_consensus_u32() < height;
+				let inputs_ok = tx.input.iter().all(|i| !spent.contains(&i.previous_output) && confirmed.contains(&i.previous_output.txid));
+				if lock_ok && inputs_ok {
+					for i in tx.input.iter() { spent.insert(i.previous_output); }
+					confirmed.insert(id);
+					txs.push(tx.clone());
+					progress = true;
+				}
+			}
+		}
+		txs
+	}
+
+	fn mk_block(&mut self, txs: Vec<Transaction>, time_offset: u32) -> Block {
+		let h = self.height(0) + 1;
+		for tx in txs.iter() { let n = self.ids.len() as u32 + 1; self.ids.entry(tx.compute_txid()).or_insert(n); }
+		create_dummy_block(self.w.net.nodes[0].best_block_hash(), h + time_offset, txs)
+	}
+}
+
+/// the reference run (whole blocks via Listen) decides the blocks; returns the step list
+fn lp_reference(lp: &Lp, rec: &mut Rec) -> Result<LpFinal, String> {
+	let mut e = LpExec::new(lp, ConnectStyle::FullBlockViaListen, false, None)?;
+	let ws = whens(lp);
+	let mut steps: Vec<Step> = vec![];
+	let h0 = e.w.h0;
+	let h0_hash = e.w.net.nodes[0].best_block_hash();
+	let mut init_claims: [Vec<(u32, u32)>; 2] = [vec![], vec![]];
+	let mut init_locked: [Vec<u32>; 2] = [vec![], vec![]];
+	for n in 0..2 {
+		let mon = e.w.net.nodes[n].chain_monitor.chain_monitor.get_monitor(e.w.chan).unwrap();
+		let (claimable, locktimed, _, _) = vh::monitor_claims_view(&mon);
+		for (op, c, _) in claimable.iter() { if let Some(t) = e.tracked.iter().find(|t| t.node == n && t.op == *op) { init_claims[n].push((t.oid, *c)); } }
+		for (op, _) in locktimed.iter() { if let Some(t) = e.tracked.iter().find(|t| t.node == n && t.op == *op) { init_locked[n].push(t.oid); } }
+	}
+	macro_rules! blk { ($txs: expr, $off: expr) => { { let b = e.mk_block($txs, $off); e.connect_run(rec, &[b.clone()])?; steps.push(Step::Blk(b)); } } }
+	macro_rules! claims { ($w: expr) => { for (i, w) in ws.iter().enumerate() { if *w == $w { e.claim(rec, i); steps.push(Step::Claim(i)); } } } }
+	for _ in 0..lp.gap { blk!(vec![], 0); }
+	let c = e.mempool.iter().find(|t| t.compute_txid() == e.commitment).cloned().unwrap();
+	blk!(vec![c], 0);
+	let hc = e.height(0);
+	claims!(When::At(0));
+	for j in 1..=lp.m {
+		let txs = if lp.mine_early { e.pick(hc + j, true, false) } else { vec![] };
+		blk!(txs, 0);
+		claims!(When::At(j));
+	}
+	let fork = (hc as i32 + lp.df) as u32;
+	let depth = hc + lp.m - fork;
+	e.disconnect(rec, depth);
+	steps.push(Step::Disc(depth));
+	claims!(When::AfterDisc);
+	let target = hc + lp.m + 1 + lp.extra;
+	while e.height(0) < target {
+		let h = e.height(0) + 1;
+		let want_commit = lp.df < 0 && h >= fork + 1 + lp.recommit;
+		let txs = e.pick(h, true, want_commit).into_iter().filter(|t| t.compute_txid() == e.commitment).collect();
+		blk!(txs, FORK_TIME_OFFSET);
+	}
+	if e.conf_height(0, &e.commitment).is_none() { return Err("commitment not re-mined before the checkpoint".to_string()); }
+	claims!(When::AfterReorg);
+	e.rebroadcast();
+	steps.push(Step::Rebroadcast);
+	for _ in 0..lp.drain {
+		let h = e.height(0) + 1;
+		let txs = e.pick(h, false, true);
+		blk!(txs, FORK_TIME_OFFSET);
+	}
+	e.end();
+	steps.push(Step::End);
+	if std::env::var("VERIF_DEBUG").is_ok() {
+		eprintln!("LPREF {:?} h0={} H={} fork={} tracked={:?}", lp, h0, hc, fork, e.tracked);
+		for st in steps.iter() { match st { Step::Blk(b) => if !b.txdata.is_empty() { eprintln!("  blk txs={:?}", b.txdata.iter().map(|t| e.ids[&t.compute_txid()]).collect::<Vec<_>>()); }, o => eprintln!("  {:?}", o) } }
+		eprintln!("  fails={:?}\n  pending={:?} cat={:?}", e.out.fails, e.out.pending, e.cat);
+	}
+	let n_blocks = steps.iter().filter(|s| matches!(s, Step::Blk(_))).count();
+	let fin = LpFinal { h0, h0_hash, steps, ids: e.ids.clone(), cat: e.cat.clone(), tracked: e.tracked.clone(), commitment: e.commitment, init_claims, init_locked, n_blocks };
+	std::mem::forget(e);
+	Ok(fin)
+}
+
+fn lp_replay(lp: &Lp, fin: &LpFinal, style: ConnectStyle, rec: &mut Rec) -> Result<LpOut, String> {
+	let mut e = LpExec::new(lp, style, true, Some(fin))?;
+	e.preamble(rec, fin);
+	let res = guarded(AssertUnwindSafe(|| -> Result<(), String> {
+		let mut i = 0;
+		while i < fin.steps.len() {
+			match &fin.steps[i] {
+				Step::Blk(_) => {
+					let mut run: Vec<Block> = vec![];
+					while i < fin.steps.len() { if let Step::Blk(b) = &fin.steps[i] { run.push(b.clone()); i += 1; } else { break; } }
+					e.connect_run(rec, &run)?;
+					continue;
+				},
+				Step::Disc(d) => e.disconnect(rec, *d),
+				Step::Claim(p) => e.claim(rec, *p),
+				Step::Rebroadcast => e.rebroadcast(),
+				Step::End => e.end(),
+			}
+			i += 1;
+		}
+		Ok(())
+	}));
+	let out = match res {
+		Ok(Ok(())) => Ok(e.out.clone()),
+		Ok(Err(x)) => Err(x),
+		Err(p) => Err(format!("panic {}", p.chars().take(300).collect::<String>())),
+	};
+	std::mem::forget(e);
+	out
+}
+
+
+/// every (k, fork point) combination: the counterparty-commitment HTLC's preimage arrives k blocks after the
+/// commitment confirmed, k in 0..=ANTI_REORG_DELAY+1; fork point H+df for every df in -2..=m-1; the other
+/// direction's HTLC (claimed on the HOLDER commitment) gets a random moment
+fn gen_lps(seed: u64, thorough: bool, rng: &mut Rng) -> Vec<Lp> {
+	let mut v = vec![];
+	let rounds = if thorough { 3 } else { 1 };
+	for round in 0..rounds {
+		for k in 0..=ANTI_REORG_DELAY + 1 {
+			let m = k.max(1) + rng.below(2) as u32;
+			for df in (-2i32).max(m as i32 - ANTI_REORG_DELAY as i32)..=(m as i32 - 1) {
+				let closer = rng.below(2) as usize;
+				let primary = match (round, rng.below(8)) { (0, _) => When::At(k), (_, 0) => When::AfterDisc, (_, 1) => When::AfterReorg, (_, 2) => When::Before, _ => When::At(k) };
+				let secondary = match rng.below(if thorough { 8 } else { 7 }) { 0 => When::Before, 1 => When::AfterDisc, 2 => When::AfterReorg, 7 => When::Never, _ => When::At(rng.below(m as u64 + 1) as u32) };
+				let a1 = 3_000_000 + rng.below(9_000_000);
+				let a2 = 13_000_000 + rng.below(9_000_000);
+				let a3 = 23_000_000 + rng.below(9_000_000);
+				// counterparty-type HTLCs flow from the closer to the other node
+				let mut prim = vec![(a1, primary)];
+				if rng.chance(1, 3) { prim.push((a3, match rng.below(3) { 0 => primary, 1 => When::At(rng.below(m as u64 + 1) as u32), _ => When::Before })); }
+				let sec = if rng.chance(3, 4) { vec![(a2, secondary)] } else { vec![] };
+				let (ab, ba) = if closer == 0 { (prim, sec) } else { (sec, prim) };
+				v.push(Lp { seed: seed.wrapping_mul(100_000).wrapping_add(v.len() as u64), ab, ba, closer, gap: rng.below(3) as u32, m, df, recommit: rng.below(3) as u32, extra: rng.below(3) as u32,
+					mine_early: rng.chance(1, 4), // (the drain stays below the HTLCs' cltv expiry: time-locked packages never reach their locktime)
+					drain: if thorough && rng.chance(1, 4) { 20 + rng.below(20) as u32 } else { ANTI_REORG_DELAY + 3 } });
+			}
+		}
+	}
+	v
+}
+
+struct LpStats { scenarios: u64, skipped: u64, runs: u64, blocks: u64, kf3: u64, kf4: u64, late: u64 }
+
+fn run_lps(args: &Args, rec: &mut Rec, rng: &mut Rng, diag: &mut dyn Write) -> LpStats {
+	let mut st = LpStats { scenarios: 0, skipped: 0, runs: 0, blocks: 0, kf3: 0, kf4: 0, late: 0 };
+	let only: Option<usize> = std::env::var("C11_LP_ONLY").ok().and_then(|x| x.parse().ok());
+	let only_style: Option<usize> = std::env::var("C11_STYLE").ok().and_then(|x| x.parse().ok());
+	let lps = gen_lps(args.seed, args.thorough, rng);
+	let (mut kf3_reported, mut kf4_reported) = (false, false);
+	let t0 = std::time::Instant::now();
+	for (li, lp) in lps.iter().enumerate() {
+		if only.map(|o| o != li).unwrap_or(false) { continue; }
+		st.scenarios += 1;
+		let fin = match guarded(AssertUnwindSafe(|| lp_reference(lp, rec))) {
+			Ok(Ok(f)) => f,
+			Ok(Err(e)) => { let _ = writeln!(diag, "lp {} {:?}: reference failed: {}", li, lp, e); rec.discarded += 1; st.skipped += 1; continue; },
+			Err(p) => { let _ = writeln!(diag, "lp {} {:?}: reference panicked: {}", li, lp, p); rec.discarded += 1; st.skipped += 1; continue; },
+		};
+		if whens(lp).iter().any(|w| matches!(w, When::At(k) if *k >= 1)) { st.late += 1; }
+		let styles: Vec<ConnectStyle> = if args.thorough { STYLES.to_vec() } else {
+			let mut v = vec![ConnectStyle::FullBlockViaListen, ConnectStyle::FullBlockDisconnectionsSkippingViaListen, ConnectStyle::BestBlockFirst, ConnectStyle::TransactionsFirst,
+				ConnectStyle::TransactionsFirstSkippingBlocks, ConnectStyle::TransactionsFirstReorgsOnlyTip, ConnectStyle::BestBlockFirstReorgsOnlyTip];
+			let s = *rng.pick(&STYLES); if !v.contains(&s) { v.push(s); }
+			v
+		};
+		let mut base: Option<(ConnectStyle, LpOut)> = None;
+		let mut reported: HashSet<String> = HashSet::new();
+		for &sty in styles.iter() {
+			if only_style.map(|o| STYLES[o] != sty).unwrap_or(false) { continue; }
+			st.runs += 1; st.blocks += fin.n_blocks as u64;
+			let out = match lp_replay(lp, &fin, sty, rec) {
+				Ok(o) => o,
+				Err(e) => { rec.oracle_fail(format!("lp delivery failed: scenario {} {:?} style={:?}: {}", li, lp, sty, e)); continue; },
+			};
+			for f in out.fails.iter() {
+				// one report per (scenario, oracle text modulo style); known findings once per run
+				if f.starts_with("KF-C11-3") { st.kf3 += 1; if kf3_reported { continue; } kf3_reported = true; }
+				else if f.starts_with("KF-C11-4") { st.kf4 += 1; if kf4_reported { continue; } kf4_reported = true; }
+				else if !reported.insert(f.clone()) { continue; }
+				rec.oracle_fail(format!("{} — lp scenario {} {:?} style={:?}", f, li, lp, sty));
+			}
+			match &base {
+				None => base = Some((sty, out)),
+				Some((bst, b)) => for n in 0..2 {
+					// outputs in one of the two known-finding classes are reported (once) under their tag
+					let kf: Vec<(String, &'static str)> = fin.tracked.iter().filter(|t| t.node == n && t.pay != usize::MAX).filter_map(|t| kf_tag(t.holder, whens(lp)[t.pay]).map(|k| (t.oid.to_string(), k))).collect();
+					let strip = |p: &str| p.split(',').filter(|o| !o.is_empty() && !kf.iter().any(|(k, _)| k == o)).collect::<Vec<_>>().join(",");
+					if strip(&out.pending[n]) != strip(&b.pending[n]) { rec.oracle_fail(format!("O4 styles disagree on the claims pending at the rebroadcast: lp scenario {} {:?} node={} {:?}: [{}] vs {:?}: [{}]", li, lp, n, bst, b.pending[n], sty, out.pending[n])); }
+					else if out.pending[n] != b.pending[n] { if kf[0].1 == KF3 { st.kf3 += 1; } else { st.kf4 += 1; } }
+					if out.end[n] != b.end[n] {
+						let tag = if out.pending[n] != b.pending[n] && !kf.is_empty() { format!("{} — ", kf[0].1) } else { String::new() };
+						if !tag.is_empty() { if kf[0].1 == KF3 { st.kf3 += 1; if kf3_reported { continue; } kf3_reported = true; } else { st.kf4 += 1; if kf4_reported { continue; } kf4_reported = true; } }
+						rec.oracle_fail(format!("{}O4 styles disagree at the end: lp scenario {} {:?} node={} {:?}: [{}] vs {:?}: [{}]", tag, li, lp, n, bst, b.end[n], sty, out.end[n]));
+					}
+				},
+			}
+		}
+		if li % 10 == 9 { let _ = writeln!(diag, "c11: lp scenario {} done, {:.1}s", li, t0.elapsed().as_secs_f32()); }
+	}
+	st
+}
+
 fn gen_scn(seed: u64, rng: &mut Rng) -> Scn {
 	let amt = |rng: &mut Rng| match rng.below(4) { 0 => 100_000 + rng.below(100_000), _ => 3_000_000 + rng.below(20_000_000) };
 	let n_ab = rng.below(4) as usize;
@@ -528,6 +1149,8 @@ fn main() {
 	let forks_per = if args.thorough { 12 } else { 5 };
 	let mut n_runs = 0u64; let mut n_groups = 0u64; let mut n_txs = 0usize; let mut n_blocks = 0usize;
 	let mut skipped = 0u64; let mut n_kf1 = 0u64; let mut n_kf2 = 0u64;
+	let lpst = if std::env::var("C11_NO_LP").is_ok() { LpStats { scenarios: 0, skipped: 0, runs: 0, blocks: 0, kf3: 0, kf4: 0, late: 0 } } else { run_lps(args, &mut rec, &mut Rng::new(args.seed.wrapping_mul(0x9E37).wrapping_add(0xC11)), &mut *diag) };
+	let n_scn = if std::env::var("C11_LP_ONLY").is_ok() { 0 } else { n_scn };
 	let t0 = std::time::Instant::now();
 	for si in 0..n_scn {
 		let sseed = args.seed.wrapping_mul(1000).wrapping_add(si);
@@ -609,6 +1232,6 @@ fn main() {
 		}
 		let _ = writeln!(diag, "c11: scenario {} done, {} txs, {} blocks, {:.1}s", si, fin.n_txs, fin.blocks.len(), t0.elapsed().as_secs_f32());
 	}
-	rec.notes.insert("rule".into(), format!("{} seeded force-close scenarios ({} skipped), {} mined transactions over {} blocks; {} (scenario, fork shape) groups, {} fresh-copy deliveries (all 11 ConnectStyles fork-free; fork depths 1..={} incl. one depth-{} per scenario, 3 fork contents); fork groups are delivered twice: events polled after every call (compared with the model) and only at checkpoints (cross-style only); every util call of a polled run is one correspondence case (distinct by op text); known-finding hits: KF-C11-1 x{}, KF-C11-2 x{}", n_scn, skipped, n_txs, n_blocks, n_groups, n_runs, ANTI_REORG_DELAY, ANTI_REORG_DELAY, n_kf1, n_kf2));
+	rec.notes.insert("rule".into(), format!("{} seeded force-close scenarios ({} skipped), {} mined transactions over {} blocks; {} (scenario, fork shape) groups, {} fresh-copy deliveries (all 11 ConnectStyles fork-free; fork depths 1..={} incl. one depth-{} per scenario, 3 fork contents); fork groups are delivered twice: events polled after every call (compared with the model) and only at checkpoints (cross-style only); every util call of a polled run is one correspondence case (distinct by op text); known-finding hits: KF-C11-1 x{}, KF-C11-2 x{}; LATE-PREIMAGE family: {} histories ({} skipped; {} with a preimage provided >= 1 block after the commitment confirmed) = every k in 0..={} x every fork point H-2..=tip-1, {} fresh-copy deliveries over {} blocks, claim bookkeeping (creation heights) compared with the model after every call; KF-C11-3 x{}, KF-C11-4 x{}", n_scn, skipped, n_txs, n_blocks, n_groups, n_runs, ANTI_REORG_DELAY, ANTI_REORG_DELAY, n_kf1, n_kf2, lpst.scenarios, lpst.skipped, lpst.late, ANTI_REORG_DELAY + 1, lpst.runs, lpst.blocks, lpst.kf3, lpst.kf4));
 	rec.finish();
 }
